@@ -225,6 +225,109 @@ def check_c09(run, replay):
     conclude(run, broken)
 
 
+# ---------------------------------------------------------------- C10
+
+def check_c10(run, replay):
+    run.trusted = vlib.BASE_TRUST
+    gv, gm, _ = prepare(run)
+    if replay:
+        return replay_lex(run, replay, gv, gm)
+    broken = prove(run, "theories/props/C10.v", gen_targets=["gen/GenClasses.vo"])
+    maxlen = 4 if run.tier == "quick" else 5
+    total = total_upto(18, maxlen)
+    for w in ("squote", "dquote", "bquote"):
+        enum_family(run, gv, gm, "str", w, "toks", total, "F-str:str:" + w)
+    run.cov["rule"] = ("exhaustive: every literal body of length <= %d over {a \\ ' \" ` n x u U 0 3 7 8 D F newline U+65E5 U+1F600} "
+                       "inside each of the three quote kinds, scanned by the crate (hook) and by the extracted model, projection "
+                       "tokens+EOF/ERR, block hashes compared; the extracted spec recogniser (regex transcription of the EBNF and its "
+                       "prose constraints) judges every string: a well-formed literal must scan as exactly one literal token with "
+                       "verbatim text, anything else must not; non-trivial = well-formed literals" % maxlen)
+    run.cov["exhaustive"] = True
+    run.cov["samples"] = sample_inputs("str", "squote", total, 3) + sample_inputs("str", "dquote", total, 3)
+    conclude(run, broken)
+
+
+# ---------------------------------------------------------------- C17
+
+def unsafe_inventory():
+    """every `unsafe` / unchecked conversion in the crate's non-test sources"""
+    found = []
+    for f in sorted(os.listdir(os.path.join(vlib.REPO, "src"))):
+        if not f.endswith(".rs"):
+            continue
+        src = open(os.path.join(vlib.REPO, "src", f)).read()
+        src = re.sub(r"//[^\n]*", "", src)
+        fn = None
+        for i, ln in enumerate(src.splitlines(), 1):
+            m = re.search(r"\bfn\s+(\w+)", ln)
+            if m:
+                fn = m.group(1)
+            if re.search(r"\bunsafe\b|_unchecked\b|\btransmute\b|\bfrom_raw_parts\b|\bMaybeUninit\b|\bstatic\s+mut\b", ln):
+                found.append((f, fn, ln.strip()))
+    return found
+
+
+def panics_family(run, gv, alpha, total, label):
+    nshard = vlib.NPROC
+    per = (total + nshard - 1) // nshard
+    ranges = [(lo, min(lo + per, total)) for lo in range(0, total, per)]
+    res = vlib.par([[gv, "enum", alpha, "bare", "panics", str(lo), str(hi)] for lo, hi in ranges], timeout=3000)
+    n = 0
+    hits = []
+    for rc, out, err in res:
+        if rc != 0:
+            raise TieBroken("implementation harness died during %s" % label, err[-2000:])
+        for ln in out.splitlines():
+            if ln.startswith("DONE "):
+                n += int(ln.split()[1])
+            elif ln:
+                hits.append(ln)
+    run.cov["evaluations"] += n
+    run.extra.setdefault("families", []).append({"family": label, "inputs": total, "programs_per_input": 3,
+                                                  "executions": n, "exhaustive": True, "panics": len(hits)})
+    for ln in hits[:5]:
+        idx, k, msg = ln.split(" ", 2)
+        s = decode(ALPHABETS[alpha], int(idx))
+        ctx = ["{}", "package p; var _ = {}", "package p; func f() {{ {} }}"][int(k)].format(s)
+        run.violation({"kind": "panic", "family": label, "index": int(idx), "input": ctx, "impl": msg})
+    return hits
+
+
+def check_c17(run, replay):
+    run.trusted = vlib.BASE_TRUST + ["the cfg(gosyn_verif) assertion std::str::from_utf8(part).is_ok() in next_nstr"]
+    gv, gm, gvd = prepare(run, debug=True)
+    if replay:
+        obj = json.load(open(replay))
+        if "input" in obj:
+            rc, out, err = vlib.sh([gv, "outcome"], input=vlib.frame([obj["input"]]))
+            print("input: %r\nimpl : %s" % (obj["input"], out.strip()))
+            if "PANIC" in out:
+                run.violation(dict(obj, replayed=True))
+        return
+    broken = prove(run, "theories/props/C17.v")
+    inv = unsafe_inventory()
+    expected = [("scanner.rs", "next_nstr")]
+    ok_inv = [(f, fn) for f, fn, _ in inv] == expected
+    run.oblige("unsafe inventory of src/*.rs = exactly one unchecked conversion, in Scanner::next_nstr (the modelled one)", ok_inv)
+    if not ok_inv:
+        broken.append(("unsafe-inventory", "found: %r, modelled: %r" % (inv, expected)))
+    maxlen = 4 if run.tier == "quick" else 5
+    total = total_upto(len(ALPHABETS["utf8"]), maxlen)
+    enum_family(run, gv, gm, "utf8", "bare", "toks", total, "F-utf8:utf8:bare")
+    panics_family(run, gv, "utf8", total, "F-utf8-panics-release")
+    panics_family(run, gvd, "utf8", total_upto(len(ALPHABETS["utf8"]), maxlen - 1), "F-utf8-panics-debug")
+    run.cov["distinct_nontrivial"] = sum(1 for i in range(min(total, 200000)) if any(ord(c) > 127 for c in decode(ALPHABETS["utf8"], i)))
+    run.cov["rule"] = ("exhaustive: every string of length <= %d over 1-, 2-, 3- and 4-byte characters, operator characters, digits, quotes, "
+                       "blank and newline; scanned alone (crate vs extracted model) and parsed as a variable initialiser and as a statement "
+                       "with the cfg(gosyn_verif) UTF-8 assertion compiled into next_nstr (release and debug); a panic is a failure; "
+                       "non-trivial = strings containing a multi-byte character (counted over the first 200000 indices)" % maxlen)
+    run.cov["exhaustive"] = True
+    run.cov["samples"] = sample_inputs("utf8", "bare", total)
+    conclude(run, broken)
+
+
 REGISTRY = {
+    "C10": check_c10,
+    "C17": check_c17,
     "C09": check_c09,
 }
